@@ -24,11 +24,11 @@ Open Scope N_scope.
     creates takes that element's leaf ([conv_confirmed_cases]); and every non-ephemeral
     input of the result is a leaf of the target accumulator. *)
 Theorem C13_rebase_ok_spec :
-  ∀ U gen txs from to out,
-    sane U → update_proofs U gen txs from to = ROk out →
+  ∀ md U gen txs from to out,
+    sane U → update_proofs md U gen txs from to = ROk out →
     ∃ rev app,
-      reorg_path U gen max_rebase from to = inr (rev, app) ∧
-      (length rev + length app ≤ S max_rebase)%nat ∧
+      reorg_path U gen md from to = inr (rev, app) ∧
+      (length rev + length app ≤ S md)%nat ∧
       (∃ fb, U !! from.2 = Some fb ∧ b_st fb = true) ∧
       Forall (λ t, elements_valid t = true) txs ∧
       (∀ ix, ix ∈ rev → ∃ b pnum, block_and_parent U ix.2 = Some (b, pnum) ∧
@@ -54,9 +54,9 @@ Print Assumptions C13_rebase_input_cases.
     what the applied blocks of the path create, not on whether the creating transaction is part
     of the set (V2TransactionSet passes the caller's transaction alone). *)
 Theorem C13_rebase_child_alone :
-  ∀ U gen t from to out,
-    sane U → update_proofs U gen [t] from to = ROk out →
-    ∃ rev app, reorg_path U gen max_rebase from to = inr (rev, app) ∧
+  ∀ md U gen t from to out,
+    sane U → update_proofs md U gen [t] from to = ROk out →
+    ∃ rev app, reorg_path U gen md from to = inr (rev, app) ∧
       (a_id t ∈ confirmed_on U app → out = []) ∧
       (a_id t ∉ confirmed_on U app → out = [map_ins (conv_confirmed (created_on U app)) t]).
 Proof. exact rebase_child_alone. Qed.
@@ -65,9 +65,9 @@ Print Assumptions C13_rebase_child_alone.
 (** non-vacuity: the parent is confirmed on the path and is not in the set; the child's input
     takes the created element's leaf, exactly as when the parent is in the set *)
 Theorem C13_rebase_child_alone_example :
-  update_proofs exRU2 (0, 1) [tC] (0, 1) (1, 2) =
+  update_proofs max_rebase exRU2 (0, 1) [tC] (0, 1) (1, 2) =
     ROk [ATx 3 true [AIn 104 RSpend 3 true 0] [108] 1 10 0 100 false] ∧
-  update_proofs exRU2 (0, 1) [tB; tC] (0, 1) (1, 2) =
+  update_proofs max_rebase exRU2 (0, 1) [tB; tC] (0, 1) (1, 2) =
     ROk [ATx 3 true [AIn 104 RSpend 3 true 0] [108] 1 10 0 100 false].
 Proof. exact rebase_child_alone_ex. Qed.
 Print Assumptions C13_rebase_child_alone_example.
@@ -77,28 +77,28 @@ Print Assumptions C13_rebase_child_alone_example.
     with the corresponding error; a result is only returned for a path within the bound; and
     the function is total: it returns a result or an error, there is no stuck state. *)
 Theorem C13_rebase_errors :
-  ∀ U gen txs from to,
+  ∀ md U gen txs from to,
     ((U !! from.2 = None ∨ ∃ fb, U !! from.2 = Some fb ∧ b_st fb = false) →
-       update_proofs U gen txs from to = RErr EBasis) ∧
+       update_proofs md U gen txs from to = RErr EBasis) ∧
     ((∃ fb, U !! from.2 = Some fb ∧ b_st fb = true) → (∃ t, t ∈ txs ∧ elements_valid t = false) →
-       update_proofs U gen txs from to = RErr EProof) ∧
+       update_proofs md U gen txs from to = RErr EProof) ∧
     (∀ e, (∃ fb, U !! from.2 = Some fb ∧ b_st fb = true) → Forall (λ t, elements_valid t = true) txs →
-       reorg_path U gen max_rebase from to = inl e → update_proofs U gen txs from to = RErr e) ∧
-    (∀ out, update_proofs U gen txs from to = ROk out →
-       ∃ rev app, reorg_path U gen max_rebase from to = inr (rev, app) ∧
-                  (length rev + length app ≤ S max_rebase)%nat) ∧
-    ((∃ l, update_proofs U gen txs from to = ROk l) ∨ (∃ e, update_proofs U gen txs from to = RErr e)).
+       reorg_path U gen md from to = inl e → update_proofs md U gen txs from to = RErr e) ∧
+    (∀ out, update_proofs md U gen txs from to = ROk out →
+       ∃ rev app, reorg_path U gen md from to = inr (rev, app) ∧
+                  (length rev + length app ≤ S md)%nat) ∧
+    ((∃ l, update_proofs md U gen txs from to = ROk l) ∨ (∃ e, update_proofs md U gen txs from to = RErr e)).
 Proof. exact rebase_errors. Qed.
 Print Assumptions C13_rebase_errors.
 
 (** The boundary on a line of 160 blocks (cf. the repository's TestReorgPathMaxLen): 144
     blocks forwards or backwards are rebased, 145 are refused, an unknown basis is refused. *)
 Theorem C13_rebase_boundary :
-  update_proofs (lin 160) (0, 1) [] (2, 3) (146, 147) = ROk [] ∧
-  update_proofs (lin 160) (0, 1) [] (2, 3) (147, 148) = RErr ETooLong ∧
-  update_proofs (lin 160) (0, 1) [] (146, 147) (2, 3) = ROk [] ∧
-  update_proofs (lin 160) (0, 1) [] (147, 148) (2, 3) = RErr ETooLong ∧
-  update_proofs (lin 160) (0, 1) [] (2, 999) (5, 6) = RErr EBasis.
+  update_proofs max_rebase (lin 160) (0, 1) [] (2, 3) (146, 147) = ROk [] ∧
+  update_proofs max_rebase (lin 160) (0, 1) [] (2, 3) (147, 148) = RErr ETooLong ∧
+  update_proofs max_rebase (lin 160) (0, 1) [] (146, 147) (2, 3) = ROk [] ∧
+  update_proofs max_rebase (lin 160) (0, 1) [] (147, 148) (2, 3) = RErr ETooLong ∧
+  update_proofs max_rebase (lin 160) (0, 1) [] (2, 999) (5, 6) = RErr EBasis.
 Proof. exact rebase_boundary. Qed.
 Print Assumptions C13_rebase_boundary.
 
@@ -109,12 +109,12 @@ Print Assumptions C13_rebase_boundary.
     closed: the pooled creator (per the output map) of every input of the transaction and of
     every returned parent is itself returned. *)
 Theorem C13_set_parents_first_and_basis_is_tip :
-  ∀ U gen L mw tip p basis t,
-    v2_transaction_set U gen L mw tip p basis t ≠ SPanic ∧
-    ∀ b l, v2_transaction_set U gen L mw tip p basis t = SOk b l →
+  ∀ md U gen L mw tip p basis t,
+    v2_transaction_set md U gen L mw tip p basis t ≠ SPanic ∧
+    ∀ b l, v2_transaction_set md U gen L mw tip p basis t = SOk b l →
       b = tip ∧
       ∃ parents l',
-        l = parents ++ l' ∧ update_proofs U gen [t] basis tip = ROk l' ∧
+        l = parents ++ l' ∧ update_proofs md U gen [t] basis tip = ROk l' ∧
         sublist parents (v2_pool_transactions L mw p) ∧
         ∀ u, u ∈ parents ∨ u = t → ∀ i ix, i ∈ a_ins u → is_ref i = false →
           parent_map (v2_pool_transactions L mw p) !! i_el i = Some ix →
@@ -126,8 +126,8 @@ Print Assumptions C13_set_parents_first_and_basis_is_tip.
     rebased across one unrelated block was refused ("references element that does not exist");
     the repaired function returns it. *)
 Theorem C13_ephemeral_prefix_refuted :
-  update_proofs_prefix exRU (0, 1) [tB; tC] (0, 1) (1, 2) = RErr EGone ∧
-  update_proofs exRU (0, 1) [tB; tC] (0, 1) (1, 2) = ROk [tB; tC].
+  update_proofs_prefix max_rebase exRU (0, 1) [tB; tC] (0, 1) (1, 2) = RErr EGone ∧
+  update_proofs max_rebase exRU (0, 1) [tB; tC] (0, 1) (1, 2) = ROk [tB; tC].
 Proof. exact rebase_prefix_refuted. Qed.
 Print Assumptions C13_ephemeral_prefix_refuted.
 
